@@ -32,6 +32,8 @@ def attach(run):
         mons.append(ReturnMonitor(run))
     if "C07.ppo" in cl and run.adapter.name == "ppo":
         mons.append(PPOAdvantageMonitor(run))
+    if "C10.wrap" in cl:
+        mons.append(WrappedActionMonitor(run))
     if "C03.value" in cl:
         from . import refine
 
@@ -312,6 +314,30 @@ class DatasetMonitor:
         for env in envs:
             if any(s["t"] == 0 and (s["term"] or s["trunc"]) for s in env.steps()):
                 run.res.fault("one_step_episode")
+
+
+class WrappedActionMonitor:
+    """C10.a behind an action-space-changing wrapper (RescaleAction): every action the routine passes to the environment it
+    was given lies in THAT environment's action space (not in the box of the unwrapped environment)."""
+
+    def __init__(self, run):
+        self.run = run
+
+    def finish(self):
+        run = self.run
+        env = run.env
+        lo, hi = np.asarray(env.action_space.low, dtype=np.float64), np.asarray(env.action_space.high, dtype=np.float64)
+        for i, a in enumerate(env.outer_actions):
+            a = np.asarray(a, dtype=np.float64).reshape(-1)
+            if a.shape != lo.shape or not np.all(np.isfinite(a)) or np.any(a < lo) or np.any(a > hi):
+                run.V("C10.a", f"step {i}: action {a} passed to the environment lies outside its action space [{lo}, {hi}] "
+                               f"(the environment is wrapped by RescaleAction; the unwrapped box is [{env.inner.action_space.low}, {env.inner.action_space.high}])")
+                return
+        if env.outer_actions:
+            run.res.probe("wrapped_env_actions_in_bounds", len(env.outer_actions))
+            ls = run.plan["cfg"].get("learning_starts", 0)
+            if len(env.outer_actions) > ls:
+                run.res.probe("wrapped_env_policy_actions_checked")
 
 
 class ReturnMonitor:
